@@ -278,7 +278,15 @@ func codecCase(rep *Report, s *glue.Subject, d MD, idx int) {
 	var pan bool
 	switch route {
 	case 0:
-		pan, pmsg = safely(func() { S = BuildStruct(s.Zero, v) })
+		pan, pmsg = safely(func() {
+			S = BuildStruct(s.Zero, v)
+			if idx%10 < 5 {
+				// zero-length bytes payloads (oneof members, list elements, map values) as nil slices: the same value
+				if emptyBytesToNil(reflect.ValueOf(S), 0) > 0 {
+					rep.Count("C01", "subjects-with-nil-bytes-payloads", 1)
+				}
+			}
+		})
 	case 1:
 		exp, expIR = wantQ, vq
 		pan, pmsg = safely(func() { S = newOf(s.Zero); Fill(slowView, S, vq) })
@@ -650,6 +658,9 @@ func codecCase(rep *Report, s *glue.Subject, d MD, idx int) {
 			if hi == 3 && !hasF32SNaN(expIR) { // Clone goes through protoreflect.Value, which quiets float32 sNaNs
 				H = proto.Clone(H)
 			}
+			if (hi+idx)%3 == 0 {
+				emptyBytesToNil(reflect.ValueOf(H), 0)
+			}
 			if hi%3 != 2 && (hi+idx)%2 == 1 {
 				// a nil pointer where an empty message stands as list element or map value is the same value (proto.Equal)
 				if nilOutEmptyMessages(reflect.ValueOf(H), 0) > 0 {
@@ -893,6 +904,67 @@ func perturbNested(rv reflect.Value, depth int, r *rand.Rand) int {
 		if rv.Type().Elem().Kind() == reflect.Ptr {
 			for _, k := range rv.MapKeys() {
 				n += perturbNested(rv.MapIndex(k), depth+1, r)
+			}
+		}
+	}
+	return n
+}
+
+// emptyBytesToNil turns zero-length, non-nil []byte payloads of oneof members, list elements and map values into nil
+// slices (the same bytes value) and returns how many it changed.
+func emptyBytesToNil(rv reflect.Value, depth int) int {
+	if depth > 100 {
+		return 0
+	}
+	n := 0
+	isBytes := func(t reflect.Type) bool { return t.Kind() == reflect.Slice && t.Elem().Kind() == reflect.Uint8 }
+	switch rv.Kind() {
+	case reflect.Ptr, reflect.Interface:
+		if !rv.IsNil() {
+			n += emptyBytesToNil(rv.Elem(), depth+1)
+		}
+	case reflect.Struct:
+		t := rv.Type()
+		for i := 0; i < rv.NumField(); i++ {
+			sf := t.Field(i)
+			if sf.PkgPath != "" {
+				continue
+			}
+			fv := rv.Field(i)
+			if isBytes(sf.Type) {
+				// only the payload of a oneof wrapper (its tag says oneof): a plain proto3 bytes field that is empty is unset anyway
+				if strings.Contains(sf.Tag.Get("protobuf"), ",oneof") && !fv.IsNil() && fv.Len() == 0 && fv.CanSet() {
+					fv.Set(reflect.Zero(sf.Type))
+					n++
+				}
+				continue
+			}
+			n += emptyBytesToNil(fv, depth+1)
+		}
+	case reflect.Slice:
+		if isBytes(rv.Type().Elem()) {
+			for i := 0; i < rv.Len(); i++ {
+				if e := rv.Index(i); !e.IsNil() && e.Len() == 0 {
+					e.Set(reflect.Zero(e.Type()))
+					n++
+				}
+			}
+		} else if rv.Type().Elem().Kind() == reflect.Ptr {
+			for i := 0; i < rv.Len(); i++ {
+				n += emptyBytesToNil(rv.Index(i), depth+1)
+			}
+		}
+	case reflect.Map:
+		if isBytes(rv.Type().Elem()) {
+			for _, k := range rv.MapKeys() {
+				if e := rv.MapIndex(k); !e.IsNil() && e.Len() == 0 {
+					rv.SetMapIndex(k, reflect.Zero(rv.Type().Elem()))
+					n++
+				}
+			}
+		} else if rv.Type().Elem().Kind() == reflect.Ptr {
+			for _, k := range rv.MapKeys() {
+				n += emptyBytesToNil(rv.MapIndex(k), depth+1)
 			}
 		}
 	}
